@@ -214,7 +214,12 @@ type solveResult struct {
 	output  string
 }
 
+// raceSem bounds the number of solver races in flight (3 processes each) so that timeouts are not caused by load.
+var raceSem = make(chan struct{}, 5)
+
 func raceSolvers(file string, timeout int) solveResult {
+	raceSem <- struct{}{}
+	defer func() { <-raceSem }()
 	ctx, cancel := context.WithCancel(context.Background())
 	defer cancel()
 	ch := make(chan solveResult, len(solvers))
@@ -298,6 +303,9 @@ func (d *Discharger) discharge(o *Obligation) {
 	if o.Split != nil && t0 > 6 {
 		t0 = 6 // a case split is available: do not spend the whole budget on the unsplit goal
 	}
+	if n := len(splitGoal(o.Goal)); n > 3 && t0 > 4 {
+		t0 = 4 // a large conjunction: go to the conjunct-by-conjunct proof quickly
+	}
 	r := d.run(o.Name, o.Hyps, o.Goal, o.Inputs, t0, o.Reveal)
 	if r.status != "unsat" && o.Split != nil && r.status != "sat" {
 		d.dischargeSplit(o)
@@ -321,7 +329,9 @@ func (d *Discharger) discharge(o *Obligation) {
 				defer wg.Done()
 				sem <- struct{}{}
 				defer func() { <-sem }()
-				results[i] = cres{i, d.run(fmt.Sprintf("%s.conj%d", o.Name, i), o.Hyps, g, o.Inputs, d.timeout, o.Reveal)}
+				// conjunct i may use conjuncts 0..i-1 (each of which is proved in turn), so the chain is sound
+				h := append(append([]*Term{}, o.Hyps...), cj[:i]...)
+				results[i] = cres{i, d.run(fmt.Sprintf("%s.conj%d", o.Name, i), h, g, o.Inputs, d.timeout, o.Reveal)}
 			}()
 		}
 		wg.Wait()
@@ -331,7 +341,14 @@ func (d *Discharger) discharge(o *Obligation) {
 			if cr.r.status != "unsat" {
 				allOK = false
 				r = cr.r
-				o.Clause += fmt.Sprintf(" [conjunct %d]", cr.i+1)
+				termMu.Lock()
+				pp := newPrinter()
+				txt := pp.str(cj[cr.i])
+				termMu.Unlock()
+				if len(txt) > 400 {
+					txt = txt[:400] + "..."
+				}
+				o.Clause += fmt.Sprintf(" [conjunct %d: %s]", cr.i+1, txt)
 				break
 			}
 			solver[cr.r.solver] = true
@@ -404,6 +421,46 @@ func (d *Discharger) run(name string, hyps []*Term, goal *Term, inputs []InputVa
 		}
 	}
 	termMu.Unlock()
+	// definitions of opaque spec functions hidden first (sound: fewer facts), revealed only if that fails
+	if len(reveal) > 0 {
+		ht := timeout / 3
+		if ht < 4 {
+			ht = 4
+		}
+		cone0 := d.coneOf(lite, goal)
+		r := d.run1(name+".hidden", cone0, goal, inputs, ht, nil)
+		if r.status == "unsat" {
+			return r
+		}
+	}
+	// cone of influence: only the hypotheses transitively sharing a variable or uninterpreted function with the goal
+	// (dropping hypotheses is sound; a failure falls through to the larger sets)
+	// staged: hypotheses within 1, 2 and 3 sharing steps of the goal first (most obligations are local)
+	if len(lite) > 30 {
+		prev := 0
+		for depth := 1; depth <= 3; depth++ {
+			cd := d.coneDepth(lite, goal, depth)
+			if len(cd) == prev || len(cd) >= len(lite) {
+				continue
+			}
+			prev = len(cd)
+			r := d.run1(fmt.Sprintf("%s.cone%d", name, depth), cd, goal, inputs, 3, reveal)
+			if r.status == "unsat" {
+				return r
+			}
+		}
+	}
+	cone := d.coneOf(lite, goal)
+	if len(cone) < len(lite) && len(lite) > 12 {
+		ct := timeout / 3
+		if ct < 4 {
+			ct = 4
+		}
+		r := d.run1(name+".cone", cone, goal, inputs, ct, reveal)
+		if r.status == "unsat" {
+			return r
+		}
+	}
 	if len(lite) < len(hyps) {
 		lt := timeout / 2
 		if lt < 5 {
@@ -415,6 +472,85 @@ func (d *Discharger) run(name string, hyps []*Term, goal *Term, inputs []InputVa
 		}
 	}
 	return d.run1(name, hyps, goal, inputs, timeout, reveal)
+}
+
+func (d *Discharger) symbolsForCone(t *Term, memo map[int]map[string]bool) map[string]bool {
+	if m, ok := memo[t.id]; ok {
+		return m
+	}
+	m := map[string]bool{}
+	seen := map[int]bool{}
+	var rec func(t *Term)
+	rec = func(t *Term) {
+		if seen[t.id] {
+			return
+		}
+		seen[t.id] = true
+		switch t.Op {
+		case "var":
+			m[t.Name] = true
+		case "app":
+			if sd := d.w.SpecFuncs[t.Name]; sd == nil || sd.Uninterp || sd.Opaque {
+				m["@"+t.Name] = true
+			}
+		}
+		for _, a := range t.Args {
+			rec(a)
+		}
+	}
+	rec(t)
+	memo[t.id] = m
+	return m
+}
+
+func (d *Discharger) coneOf(hyps []*Term, goal *Term) []*Term {
+	return d.coneDepth(hyps, goal, 1<<30)
+}
+
+func (d *Discharger) coneDepth(hyps []*Term, goal *Term, depth int) []*Term {
+	termMu.Lock()
+	defer termMu.Unlock()
+	memo := map[int]map[string]bool{}
+	syms := map[string]bool{}
+	for k := range d.symbolsForCone(goal, memo) {
+		syms[k] = true
+	}
+	in := make([]bool, len(hyps))
+	changed := true
+	for round := 0; changed && round < depth; round++ {
+		changed = false
+		newSyms := map[string]bool{}
+		for i, h := range hyps {
+			if in[i] {
+				continue
+			}
+			hs := d.symbolsForCone(h, memo)
+			hit := len(hs) == 0
+			for k := range hs {
+				if syms[k] {
+					hit = true
+					break
+				}
+			}
+			if hit {
+				in[i] = true
+				changed = true
+				for k := range hs {
+					newSyms[k] = true
+				}
+			}
+		}
+		for k := range newSyms {
+			syms[k] = true
+		}
+	}
+	var out []*Term
+	for i, h := range hyps {
+		if in[i] {
+			out = append(out, h)
+		}
+	}
+	return out
 }
 
 func (d *Discharger) run1(name string, hyps []*Term, goal *Term, inputs []InputVar, timeout int, reveal map[string]bool) solveResult {
